@@ -130,7 +130,7 @@ Inductive http_step (cfg : config) (st : state) (u : url) : state -> res doc -> 
     origin st u = ok_resp d p ->
     http_step cfg st u (log_req st (CHttp, u, now st, ok_resp d p)) (Err t)
 | HS_store d p :                         (* request, current document returned and stored *)
-    origin st u = ok_resp d p -> cc_store cfg p = true -> cache_on cfg = true ->
+    origin st u = ok_resp d p -> storable cfg p = true -> cache_on cfg = true ->
     assoc String.eqb u (embedded cfg) = None ->
     http_step cfg st u
       (set_cache (log_req st (CHttp, u, now st, ok_resp d p))
@@ -154,7 +154,7 @@ Proof.
     + apply Z.eqb_eq in Hcode. subst code.
       destruct b as [d|]; simpl.
       * change (RResp 200 (BJson d) p) with (ok_resp d p) in *.
-        destruct (cc_store cfg p) eqn:Hc; simpl; [|apply (HS_unstored _ _ _ d p Ho)].
+        destruct (storable cfg p) eqn:Hc; simpl; [|apply (HS_unstored _ _ _ d p Ho)].
         destruct (cache_on cfg) eqn:Hon; simpl; [|apply (HS_unstored _ _ _ d p Ho)].
         unfold engine_set.
         destruct (set_fails cfg) eqn:Hs; simpl; [apply (HS_set_err _ _ _ d p _ Ho)|].
@@ -292,7 +292,7 @@ Qed.
 (* ---- the cache invariant ---- *)
 Definition justified (cfg : config) (st : state) (k : url) (d : doc) (e : etime) : Prop :=
   assoc String.eqb k (embedded cfg) = None /\
-  exists t p, In (CHttp, k, t, ok_resp d p) (reqlog st) /\ cc_store cfg p = true /\
+  exists t p, In (CHttp, k, t, ok_resp d p) (reqlog st) /\ storable cfg p = true /\
               e = expiry_of (cc_lifetime cfg p) t.
 
 Definition inv (cfg : config) (st : state) : Prop :=
@@ -355,7 +355,7 @@ Theorem cache_from_history cfg ops k d e :
   assoc String.eqb k (embedded cfg) = None /\
   exists pre u post p,
     ops = pre ++ Load u :: post /\ route_of cfg u = ToHttp k /\
-    served pre k = RResp 200 (BJson d) p /\ cc_store cfg p = true /\
+    served pre k = RResp 200 (BJson d) p /\ storable cfg p = true /\
     e = expiry_of (cc_lifetime cfg p) (elapsed pre).
 Proof.
   intros Hin. destruct (run_inv cfg ops k d e Hin) as [He [t [p [Hl [Hc Hx]]]]].
@@ -434,7 +434,7 @@ Definition from_cache (cfg : config) (ops : list op) (u : url) (d : doc) (st' : 
   exists k pre u0 post p l,
     route_of cfg u = ToHttp k /\ assoc String.eqb k (embedded cfg) = None /\
     ops = pre ++ Load u0 :: post /\ route_of cfg u0 = ToHttp k /\
-    served pre k = RResp 200 (BJson d) p /\ cc_store cfg p = true /\
+    served pre k = RResp 200 (BJson d) p /\ storable cfg p = true /\
     cc_lifetime cfg p = Some l /\ elapsed ops < elapsed pre + l /\
     In (k, (d, TAt (elapsed pre + l))) (cache (run cfg ops)) /\
     st' = run cfg ops.
@@ -506,7 +506,7 @@ Theorem load_no_reuse cfg ops u k d st' :
   (forall pre u0 post p,
      ops = pre ++ Load u0 :: post -> route_of cfg u0 = ToHttp k ->
      served pre k = RResp 200 (BJson d) p ->
-     cc_store cfg p = false \/ cc_lifetime cfg p = None \/
+     storable cfg p = false \/ cc_lifetime cfg p = None \/
      (exists l, cc_lifetime cfg p = Some l /\ elapsed pre + l <= elapsed ops)) ->
   exists p, served ops k = RResp 200 (BJson d) p /\
             reqlog st' = (CHttp, k, elapsed ops, RResp 200 (BJson d) p) :: reqlog (run cfg ops).
@@ -524,9 +524,12 @@ Proof.
   - exfalso. destruct He as [k0 [H1 [H2 _]]]. rewrite Hr in H1. inversion H1. subst k0. congruence.
 Qed.
 
-(* header sets that forbid storing, and header sets without freshness information *)
+(* header sets that forbid storing, that demand revalidation before any reuse, and header sets
+   without freshness information *)
 Definition forbids (p : policy) : Prop :=
   match p with PNoStore | PPrivate | PPrivateMaxAge _ | PNoStoreMaxAge _ => True | _ => False end.
+Definition revalidate (p : policy) : Prop :=
+  match p with PNoCache | PNoCacheMaxAge _ => True | _ => False end.
 Definition no_freshness (p : policy) : Prop :=
   match p with PNone | PNoCache | PExpiresInvalid => True | _ => False end.
 
@@ -534,6 +537,7 @@ Definition no_freshness (p : policy) : Prop :=
    (checked against the recorded table on every run) *)
 Definition cc_respects_headers (cfg : config) : Prop :=
   (forall p, forbids p -> cc_store cfg p = false) /\
+  (forall p, revalidate p -> cc_nocache cfg p = true) /\
   (forall p, no_freshness p -> cc_lifetime cfg p = None).
 
 Corollary load_no_reuse_headers cfg ops u k d st' :
@@ -543,13 +547,14 @@ Corollary load_no_reuse_headers cfg ops u k d st' :
   assoc String.eqb k (embedded cfg) = None ->
   (forall pre u0 post p,
      ops = pre ++ Load u0 :: post -> route_of cfg u0 = ToHttp k ->
-     served pre k = RResp 200 (BJson d) p -> forbids p \/ no_freshness p) ->
+     served pre k = RResp 200 (BJson d) p -> forbids p \/ revalidate p \/ no_freshness p) ->
   exists p, served ops k = RResp 200 (BJson d) p /\
             reqlog st' = (CHttp, k, elapsed ops, RResp 200 (BJson d) p) :: reqlog (run cfg ops).
 Proof.
-  intros [Hf Hn] Hl Hr Hemb Hall. apply (load_no_reuse cfg ops u k d st' Hl Hr Hemb).
-  intros pre u0 post p H1 H2 H3. destruct (Hall pre u0 post p H1 H2 H3) as [H|H].
-  - left. apply Hf. exact H.
+  intros [Hf [Hv Hn]] Hl Hr Hemb Hall. apply (load_no_reuse cfg ops u k d st' Hl Hr Hemb).
+  intros pre u0 post p H1 H2 H3. destruct (Hall pre u0 post p H1 H2 H3) as [H|[H|H]].
+  - left. unfold storable. rewrite (Hf p H). reflexivity.
+  - left. unfold storable. rewrite (Hv p H). apply andb_false_r.
   - right; left. apply Hn. exact H.
 Qed.
 
@@ -629,16 +634,21 @@ Qed.
 Definition cc_reference (p : policy) : ccdec :=
   match p with
   | PMaxAge n | PSMaxAge n | PPublicMaxAge n | PExpiresDate n | PExpires n
-  | PMustRevalidate n | PNoCacheMaxAge n => (true, Some n)
-  | PNone | PNoCache | PExpiresInvalid => (true, None)
-  | PNoStore | PPrivate | PMalformed | PBadDate _ => (false, None)
-  | PPrivateMaxAge n | PNoStoreMaxAge n => (false, Some n)
+  | PMustRevalidate n => (true, Some n, false)
+  | PNoCacheMaxAge n => (true, Some n, true)
+  | PNone | PExpiresInvalid => (true, None, false)
+  | PNoCache => (true, None, true)
+  | PNoStore | PPrivate | PBadDate _ => (false, None, false)
+  | PMalformed => (false, None, false)
+  | PPrivateMaxAge n | PNoStoreMaxAge n => (false, Some n, false)
   end.
 
 Example cc_reference_respects_headers cm cli gw uok :
   cc_respects_headers {| cache_mode_of := cm; ipfs_client := cli; gateway := gw; url_ok := uok;
                          cc := cc_reference |}.
-Proof. split; intros p; destruct p; simpl; intros H; try contradiction; reflexivity. Qed.
+Proof.
+  split; [|split]; intros p; destruct p; simpl; intros H; try contradiction; reflexivity.
+Qed.
 
 Definition ex_cfg : config :=
   {| cache_mode_of := CacheMemory [("https://e.test/ctx", 900)];
@@ -719,4 +729,37 @@ Example ex_route :
               url_ok := fun _ => true; cc := cc_reference |} "ipfs://Qm/x" = Reject /\
   route_of ex_cfg "httpx://a.test/d" = Reject /\ route_of ex_cfg "" = Reject /\
   route_of ex_cfg "file:///etc/passwd" = Reject.
+Proof. vm_compute. repeat split; reflexivity. Qed.
+
+(* the premises of C19_no_reuse are satisfiable: v1 was only ever received with no-store *)
+Example ex_no_reuse_premises :
+  let ops := [Serve a_url (ok_resp 1 PNoStore); Load a_url] in
+  (exists st', load ex_cfg (run ex_cfg ops) a_url = (st', Ok 1)) /\
+  route_of ex_cfg a_url = ToHttp a_url /\
+  assoc String.eqb a_url (embedded ex_cfg) = None /\
+  (forall pre u0 post p,
+     ops = pre ++ Load u0 :: post -> route_of ex_cfg u0 = ToHttp a_url ->
+     served pre a_url = RResp 200 (BJson 1) p ->
+     storable ex_cfg p = false \/ cc_lifetime ex_cfg p = None \/
+     (exists l, cc_lifetime ex_cfg p = Some l /\ elapsed pre + l <= elapsed ops)).
+Proof.
+  cbv zeta. split; [eexists; vm_compute; reflexivity|].
+  split; [reflexivity|]. split; [reflexivity|].
+  intros pre u0 post p Heq _ Hs.
+  destruct pre as [|o1 pre]; [discriminate|].
+  inversion Heq as [[Ho1 Hrest]]. subst o1.
+  destruct pre as [|o2 pre].
+  - unfold served in Hs. simpl in Hs. inversion Hs. subst p. left. reflexivity.
+  - destruct pre; discriminate.
+Qed.
+
+(* `Cache-Control: no-cache, max-age=n`: the library alone would let it be stored with lifetime n;
+   since the fix da1a3b4 (requiresRevalidation) the loader does not store it, so the next load
+   asks the origin again and returns v2 *)
+Example nocache_maxage_not_reused :
+  let ops := [Serve a_url (ok_resp 1 (PNoCacheMaxAge 3000)); Load a_url;
+              Serve a_url (ok_resp 2 (PNoCacheMaxAge 3000)); Tick 1000] in
+  cache (run ex_cfg ops) = [] /\
+  snd (load ex_cfg (run ex_cfg ops) a_url) = Ok 2 /\
+  new_reqs (run ex_cfg ops) (fst (load ex_cfg (run ex_cfg ops) a_url)) = [(CHttp, a_url)].
 Proof. vm_compute. repeat split; reflexivity. Qed.
